@@ -39,7 +39,7 @@ impl PrepExec {
 //@attr #[verifier::loop_isolation(false)]
 //@rreplace 1 /std::mem::take\(&mut this\.prealloc_exe\)/ => /take_buf(&mut this.prealloc_exe)/
 //@rreplace 1 /for dir in split_path\(search_path\.as_os_str\(\)\)/ => /let mut it_ = split_path(search_path.as_os_str()); loop/
-//@rreplace 1 /err = this\.libc_exec\(/ => /let dir = match it_.next() { Some(d_) => d_, None => break }; err = this.libc_exec(/
+//@rreplace 1 /(let )?err = this\.libc_exec\(/ => /let dir = match it_.next() { Some(d_) => d_, None => break }; \1err = this.libc_exec(/
 //@rreplace 1 /b"\/"/ => /slash()/
     requires self.prealloc_exe.v@.len() == 0, self.prealloc_exe.cap@ >= needed(self.cmd.b@, self.search_path),
     ensures
@@ -50,9 +50,12 @@ impl PrepExec {
             Some(p) => candidates(segments(p.b@), self.cmd.b@),
             None => seq![self.cmd.b@ + seq![0u8]],
         }), //[C15]
+        // the error reported is the operating-system error of the step that failed: the last exec attempt (ENOENT if there was none)
+        r->Err_0.code == (if final(w).s.attempts.len() > old(w).s.attempts.len() { final(w).s.last_err } else { Some(libc::ENOENT) }), //[C07,C15]
 //@loop 0
         invariant
             self.search_path.is_some(), it_.all@ == segments(self.search_path.unwrap().b@), err is Err, it_.pos@ <= it_.all@.len(),
+            err->Err_0.code == (if it_.pos@ > 0 { w.s.last_err } else { Some(libc::ENOENT) }),
             exe.cap@ >= needed(self.cmd.b@, self.search_path), this.cmd == self.cmd,
             w.s.attempts =~= old(w).s.attempts + Seq::new(it_.pos@, |i: int| candidate(it_.all@[i], self.cmd.b@)),
         decreases it_.all@.len() - it_.pos@,
